@@ -195,6 +195,59 @@ VCLAUSE(rule, 20, 12000, 100000, "n is odd, or n > 64, or the interval is shifte
 	}
 }
 
+// every order n = 1..512 in one case ("exhaustive" in the quantifier): on [-1,1] and on one generated interval the rule is strictly
+// increasing, strictly inside, mirror-symmetric, positive, sums to b-a and integrates t^2 and t^(2n-2) / P_(2n-1)
+VCLAUSE(order_sweep, 8, 8, 32, "every case sweeps all orders 1..512 on two intervals")
+{
+	Src& s = c.s;
+	c.nt();
+	double a, b, ratio;
+	gen_interval(s, a, b, ratio);
+	bool rev = s.coin();
+	VLOG(c, "sweep n=1..512 on [-1,1] and on [" << (rev ? b : a) << "," << (rev ? a : b) << "]");
+	for(int pass = 0; pass < 2; pass++)
+	{
+		double lo = pass == 0 ? -1.0 : a, hi = pass == 0 ? 1.0 : b, rt = pass == 0 ? 0.0 : ratio;
+		bool rv = pass == 1 && rev;
+		long double mid = ((long double) lo + hi) / 2, hw = ((long double) hi - lo) / 2;
+		for(int n = 1; n <= 512; n++)
+		{
+			std::vector<std::vector<double>> rw;
+			VMUST_RETURN("Compute_Gauss_Legendre_Roots_and_Weights", rw = libphysica::Compute_Gauss_Legendre_Roots_and_Weights((unsigned) n, rv ? hi : lo, rv ? lo : hi));
+			VCHECK((int) rw.size() == n, "n=" << n << ": rule has " << rw.size() << " entries");
+			long double wsum = 0, m2 = 0, top = 0;
+			double dir = rv ? -1.0 : 1.0;
+			for(int i = 0; i < n; i++)
+			{
+				double x = rw[(size_t) i][0], w = rw[(size_t) i][1];
+				VCHECK(std::isfinite(x) && std::isfinite(w) && x > lo && x < hi && dir * w > 0, "n=" << n << ": node " << i << " = " << x << " weight " << w << " on (" << lo << "," << hi << ")");
+				if(i > 0)
+					VCHECK(dir * (x - rw[(size_t) i - 1][0]) > 0, "n=" << n << ": nodes " << i - 1 << "," << i << " out of order");
+				long double t = ((long double) x - mid) / hw, tm = ((long double) rw[(size_t) (n - 1 - i)][0] - mid) / hw;
+				VCLOSE(c, "sweep_node_symmetry", (double) t, (double) -tm, 64 * EPS * (1 + rt), "n=" << n << ": nodes " << i << " and " << n - 1 - i);
+				wsum += w;
+				m2 += (long double) w * t * t;
+				// top degree 2n-1 through the Legendre polynomial P_(2n-1)(t), which must integrate to zero
+				long double p0 = 1, p1 = t;
+				for(int k = 2; k <= 2 * n - 1 && n <= 40; k++)
+				{
+					long double p2 = ((2 * k - 1) * t * p1 - (k - 1) * p0) / k;
+					p0 = p1;
+					p1 = p2;
+				}
+				if(n <= 40)
+					top += (long double) w * (n == 1 ? t : p1);
+			}
+			double W = (double) fabsl(2 * hw);
+			VCLOSE(c, "sweep_weight_sum", (double) wsum, dir * W, 1024 * EPS * W, "n=" << n << ": sum of the weights");
+			if(n >= 2)
+				VCLOSE(c, "sweep_second_moment", (double) m2, (double) (dir * 2.0L / 3 * hw), EPS * W * (1024 + 24 * rt), "n=" << n << ": integral of t^2");
+			if(n <= 40)
+				VCLOSE(c, "sweep_top_degree", (double) top, 0.0, EPS * W * (1024 + 16 * n * rt), "n=" << n << ": integral of P_(2n-1)");
+		}
+	}
+}
+
 VCLAUSE(overloads, 30, 8000, 160000, "limits reversed or value list supplied separately")
 {
 	Src& s = c.s;
